@@ -25,6 +25,8 @@ class QuicPacket:
         self.isserver = isserver
         self.first_byte = first_byte
         self.ts = ts
+        # the captured UDP datagram this packet was taken from (set by QuicSession.handle_packet)
+        self.datagram = None
         self.packet_num = None  # Retry and Version Negotiation packets carry no packet number
 
 
